@@ -503,6 +503,20 @@ class Finder(importlib.abc.MetaPathFinder):
 _INSTALLED = []
 
 
+def _patch_copyreg():
+    """copy/pickle rebuild objects with cls.__new__(cls, *args, **kwargs); keyword names coming from
+    rewritten code are shadow strings and must reach the interpreter as real str"""
+    import copyreg
+    if getattr(copyreg.__newobj_ex__, "_sse", False):
+        return
+
+    def __newobj_ex__(cls, args, kwargs):
+        return cls.__new__(cls, *args, **{(conc(k) if isS(k) else k): v for k, v in kwargs.items()})
+
+    __newobj_ex__._sse = True
+    copyreg.__newobj_ex__ = __newobj_ex__
+
+
 def install(root=None, extra=None):
     """serve `fparser` from root (default $FPARSER_SRC) and each top-level name in `extra`
     (dict name -> directory) through the shadow transform"""
@@ -514,6 +528,7 @@ def install(root=None, extra=None):
         roots[name] = d
         if name not in SHADOW_PREFIXES:
             SHADOW_PREFIXES.append(name)
+    _patch_copyreg()
     f = Finder(roots)
     sys.meta_path.insert(0, f)
     _INSTALLED.append(f)
